@@ -13,7 +13,8 @@ META = dict(
          "handed over as bytearray objects (total <= 3 / 6) and with one bytearray object queued twice in a row; delivery "
          "must still be exact and the caller's objects unchanged afterwards; and with bufsize / .bs = 2, smaller than a "
          "message and than the backlog (total <= 4 / 7), and = 1, so that messages are exact multiples of it (total <= 3 / 6). "
-         "Two connections accepted by one real Server / ServerTls are "
+         "Client and ClientTls are also built with caller-supplied containers (txes= / rxbs= empty or already primed) and "
+         "driven through the caller's own references. Two connections accepted by one real Server / ServerTls are "
          "driven together (messages queued alternately, every interleaving of their serviceTxes; and: one dies with data "
          "queued, a new one is accepted) with a per-connection oracle. Receive side: a "
          "stream of 1-6 (9) distinct bytes is delivered with every cut and would-block pattern, through serviceReceives "
@@ -27,9 +28,9 @@ import itertools
 
 from mc import core, net
 
-QUICK = dict(tx_total=6, tx_stalls=2, rx_total=6, rx_stalls=2, ba_total=3, smallbs_total=4, bs1_total=3,
+QUICK = dict(tx_total=6, tx_stalls=2, rx_total=6, rx_stalls=2, ba_total=3, smallbs_total=4, bs1_total=3, inject_total=3,
              pairs=(((2,), (2,)), ((1, 2), (2,))), pair_stalls=1)
-THOROUGH = dict(tx_total=9, tx_stalls=3, rx_total=9, rx_stalls=3, ba_total=6, smallbs_total=7, bs1_total=6,
+THOROUGH = dict(tx_total=9, tx_stalls=3, rx_total=9, rx_stalls=3, ba_total=6, smallbs_total=7, bs1_total=6, inject_total=5,
                 pairs=(((2,), (2,)), ((1, 2), (2,)), ((3,), (1, 2)), ((2, 1), (1, 2))), pair_stalls=2)
 ALPHABET = b"abcdefghijklmnopqrstuvwxyz"
 TRANSPORTS = ("Client", "ClientTls", "Incomer", "IncomerTls", "Driver", "DriverDeviceNb")
@@ -104,7 +105,7 @@ def init():
     MODS = dict(clienting=clienting, serving=serving, serialing=serialing, wiring=wiring, shim=shim)
 
 
-def make(kind, fn, bs):
+def make(kind, fn, bs, txes=None, rxbs=None):
     """Build the real transport over fresh doubles.  Returns (transport, its FakeSocket, wirelog,
     address the wire log prints)."""
     m = MODS
@@ -115,9 +116,9 @@ def make(kind, fn, bs):
     if kind in ("Client", "ClientTls"):
         ls = fn.listen((net.LOOP, PORT))
         if kind == "Client":
-            t = m["clienting"].Client(ha=(net.LOOP, PORT), bufsize=bs, wlog=wl, store=ck)
+            t = m["clienting"].Client(ha=(net.LOOP, PORT), bufsize=bs, wlog=wl, store=ck, txes=txes, rxbs=rxbs)
         else:
-            t = m["clienting"].ClientTls(ha=(net.LOOP, PORT), bufsize=bs, wlog=wl, store=ck,
+            t = m["clienting"].ClientTls(ha=(net.LOOP, PORT), bufsize=bs, wlog=wl, store=ck, txes=txes, rxbs=rxbs,
                                          context=net.FakeSslContext(fn))
         t.reopen()
         if not t.serviceConnect():
@@ -172,12 +173,15 @@ def stalled(ans):
     return ans == net.BLOCK or ans == net.N(0) or ans[0] == "ssl"
 
 
-def tx_config(kind, lens, stalls, part, replay=None, form="bytes", bs=8096):
+def tx_config(kind, lens, stalls, part, replay=None, form="bytes", bs=8096, inject="own"):
     """All send-answer sequences for one transport and one queue.
     form: "bytes" - every message an immutable bytes object;
           "bytearray" - every message a fresh bytearray the caller keeps a reference to;
           "twice" - the first message is ONE bytearray object queued twice in a row (the caller re-sends its
-                    buffer), followed by the remaining messages as fresh bytearrays."""
+                    buffer), followed by the remaining messages as fresh bytearrays.
+    inject (Client / ClientTls): "own" - the client makes its own .txes and the harness queues with .tx();
+          "fresh" - the caller hands an EMPTY deque to the constructor (txes=) and later appends to its own reference;
+          "primed" - the caller's deque already holds the first message at construction."""
     msgs = messages(lens)
     if form == "twice":
         msgs = [msgs[0]] + msgs
@@ -193,7 +197,11 @@ def tx_config(kind, lens, stalls, part, replay=None, form="bytes", bs=8096):
 
     def run1(ch):
         fn = net.FakeNet(chooser=ch)
-        t, sock, wl, addr = make(kind, fn, bs)
+        given = None
+        if inject != "own":
+            import collections
+            given = collections.deque(msgs[:1] if inject == "primed" else ())
+        t, sock, wl, addr = make(kind, fn, bs, txes=given)
         sock.menu = free if stalls else tight
         if form == "bytes":
             queued = list(msgs)
@@ -201,13 +209,20 @@ def tx_config(kind, lens, stalls, part, replay=None, form="bytes", bs=8096):
             queued = [bytearray(mm) for mm in msgs]
             if form == "twice":
                 queued[1] = queued[0]            # the same object, queued twice
-        for mm in queued:
-            t.tx(mm)
+        if given is None:
+            for mm in queued:
+                t.tx(mm)
+        else:
+            for mm in queued[len(given):]:
+                given.append(mm)              # through the caller's own reference
+        pending = t.txes if given is None else given
         budget = stalls
         calls = 0
         chunks = []
         bad = None
-        while t.txes and calls < limit:
+        if given is not None and t.txes is not given:
+            bad = ("container-not-used", "the deque handed to the constructor as txes= is not the client's .txes")
+        while bad is None and pending and calls < limit:
             mark = len(fn.log)
             before = len(sock.sent)
             try:
@@ -230,7 +245,7 @@ def tx_config(kind, lens, stalls, part, replay=None, form="bytes", bs=8096):
                 break
         sent = bytes(sock.sent)
         if bad is None:
-            if t.txes:
+            if pending:
                 bad = ("stuck", "queue not drained after %d service calls although every later send "
                                 "made progress; accepted %r of %r" % (calls, sent, total))
             elif sent != total:
@@ -253,17 +268,19 @@ def tx_config(kind, lens, stalls, part, replay=None, form="bytes", bs=8096):
         part.evaluations += 1
         nst = sum(1 for a in answers if a in ("block", "n:0") or a.startswith("ssl"))
         if ch.deviations():
-            part.nontrivial("tx|%s|%r|%s|%d|%s" % (kind, lens, form, bs, ",".join(answers)))
+            part.nontrivial("tx|%s|%r|%s|%d|%s|%s" % (kind, lens, form, bs, inject, ",".join(answers)))
         part.outcome("tx %d stalls, %d sends" % (nst, len(answers)))
         if bad is not None:
             part.violation("%s.serviceTxes|%s" % (kind, bad[0]),
                            "queue=%s%s answers=%s" % ("/".join(mm.decode() for mm in msgs),
                                                       ("" if form == "bytes" else " (%s)" % form) +
-                                                      ("" if bs == 8096 else " bs=%d" % bs), ",".join(answers)),
+                                                      ("" if bs == 8096 else " bs=%d" % bs) +
+                                                      ("" if inject == "own" else " txes=%s" % inject), ",".join(answers)),
                            "%s transmit: %s" % (kind, bad[1]),
                            dict(transport=kind, direction="tx", queue=[mm.decode() for mm in msgs],
                                 send_answers=answers, choices=ch.choices, accepted=sent.decode(),
-                                case=["tx", kind, list(lens), stalls, form, bs], queued_as=form, bufsize=bs,
+                                case=["tx", kind, list(lens), stalls, form, bs, inject], queued_as=form, bufsize=bs,
+                                txes_argument=inject,
                                 expected=total.decode(),
                                 how="queue the messages with .tx() (form bytearray: as bytearray objects; twice: the "
                                     "first bytearray object is queued two times), call .serviceTxes() repeatedly; the "
@@ -277,8 +294,11 @@ def tx_config(kind, lens, stalls, part, replay=None, form="bytes", bs=8096):
     return st["executions"]
 
 
-def rx_config(kind, nbytes, bs, once, stalls, part, replay=None):
+def rx_config(kind, nbytes, bs, once, stalls, part, replay=None, inject="own"):
+    """inject (Client / ClientTls): "own" - the client makes its own .rxbs; "fresh" - the caller hands an EMPTY
+    bytearray to the constructor (rxbs=) and reads it afterwards; "primed" - it already holds b"zz"."""
     stream = ALPHABET[:nbytes]
+    prefix = b"zz" if inject == "primed" else b""
     free = net.Menu(recv_split=True, recv_block=True)
     tight = net.Menu(recv_split=True)
     limit = 2 * nbytes + stalls + 3
@@ -289,13 +309,17 @@ def rx_config(kind, nbytes, bs, once, stalls, part, replay=None):
 
     def run1(ch):
         fn = net.FakeNet(chooser=ch)
-        t, sock, wl, addr = make(kind, fn, bs)
+        given = None if inject == "own" else bytearray(prefix)
+        t, sock, wl, addr = make(kind, fn, bs, rxbs=given)
+        buf = t.rxbs if given is None else given          # the buffer the caller holds
         sock.feed(stream)
         sock.menu = free if stalls else tight
         budget = stalls
         calls = 0
         bad = None
-        while len(sock.recvd) < nbytes and calls < limit:
+        if given is not None and t.rxbs is not given:
+            bad = ("container-not-used", "the bytearray handed to the constructor as rxbs= is not the client's .rxbs")
+        while bad is None and len(sock.recvd) < nbytes and calls < limit:
             mark = len(fn.log)
             try:
                 if once:
@@ -311,8 +335,8 @@ def rx_config(kind, nbytes, bs, once, stalls, part, replay=None):
                     budget -= 1
             if budget <= 0:
                 sock.menu = tight
-            if bytes(t.rxbs) != bytes(sock.recvd):
-                bad = ("rxbs", "rxbs %r after the socket returned %r" % (bytes(t.rxbs), bytes(sock.recvd)))
+            if bytes(buf) != prefix + bytes(sock.recvd):
+                bad = ("rxbs", "rxbs %r after the socket returned %r" % (bytes(buf), bytes(sock.recvd)))
                 break
         answers = [net.show(a) for n_, op, a in fn.log if op == "recv"]
         LAST["answers"] = answers
@@ -320,8 +344,8 @@ def rx_config(kind, nbytes, bs, once, stalls, part, replay=None):
             if len(sock.recvd) < nbytes:
                 bad = ("stuck", "only %r of %r taken from the socket in %d service calls"
                        % (bytes(sock.recvd), stream, calls))
-            elif bytes(t.rxbs) != stream:
-                bad = ("rxbs", "rxbs %r, arrived %r" % (bytes(t.rxbs), stream))
+            elif bytes(buf) != prefix + stream:
+                bad = ("rxbs", "rxbs %r, arrived %r" % (bytes(buf), stream))
         if bad is None and wl is not None:
             chunks, pos = [], 0
             for n_, op, a in fn.log:
@@ -333,17 +357,18 @@ def rx_config(kind, nbytes, bs, once, stalls, part, replay=None):
                 bad = ("wirelog", "rx wire log %r, chunks returned %r" % (wl.getRx(), chunks))
         part.evaluations += 1
         if ch.deviations():
-            part.nontrivial("rx|%s|%d|%d|%d|%s" % (kind, nbytes, bs, once, ",".join(answers)))
+            part.nontrivial("rx|%s|%d|%d|%d|%s|%s" % (kind, nbytes, bs, once, inject, ",".join(answers)))
         part.outcome("rx %d chunks, %d blocks" % (sum(1 for a in answers if a.startswith("n:")),
                                                   sum(1 for a in answers if a == "block")))
         if bad is not None:
             meth = "serviceReceiveOnce" if once else "serviceReceives"
             part.violation("%s.%s|%s" % (kind, meth, bad[0]),
-                           "stream=%s bs=%d answers=%s" % (stream.decode(), bs, ",".join(answers)),
+                           "stream=%s bs=%d%s answers=%s" % (stream.decode(), bs,
+                                                             "" if inject == "own" else " rxbs=%s" % inject, ",".join(answers)),
                            "%s receive: %s" % (kind, bad[1]),
                            dict(transport=kind, direction="rx", stream=stream.decode(), bufsize=bs, method=meth,
                                 recv_answers=answers, choices=ch.choices, rxbs=bytes(t.rxbs).decode("latin-1"),
-                                case=["rx", kind, nbytes, bs, once, stalls],
+                                case=["rx", kind, nbytes, bs, once, stalls, inject], rxbs_argument=inject,
                                 how="peer sends the stream; call the method repeatedly; the socket double answers "
                                     "the successive recv() calls as listed"))
         return bad
@@ -545,6 +570,13 @@ def configs(tier):
     for lens in ((1,), (2,), (3,), (2, 1), (3, 1)):       # first message queued twice as one object, then the rest
         for kind in TRANSPORTS:
             out.append(("tx", kind, lens, b["tx_stalls"], "twice"))
+    for kind in ("Client", "ClientTls"):         # caller-supplied containers (txes= / rxbs= constructor arguments)
+        for inject in ("fresh", "primed"):
+            for lens in shapes(b["inject_total"]):
+                out.append(("tx", kind, lens, b["tx_stalls"], "bytes", 8096, inject))
+            for nbytes in range(1, b["inject_total"] + 1):
+                for once in (0, 1):
+                    out.append(("rx", kind, nbytes, 8096, once, b["rx_stalls"], inject))
     for kind in ("Incomer", "IncomerTls"):       # two connections of one Server / ServerTls
         for la, lb in b["pairs"]:
             out.append(("pair", kind, la, lb, "both", b["pair_stalls"]))
@@ -562,14 +594,15 @@ def work(cfg):
     p = core.Part()
     if cfg[0] == "tx":
         _, kind, lens, stalls, form = cfg[:5]
-        n = tx_config(kind, lens, stalls, p, form=form, bs=(cfg[5] if len(cfg) > 5 else 8096))
+        n = tx_config(kind, lens, stalls, p, form=form, bs=(cfg[5] if len(cfg) > 5 else 8096),
+                      inject=(cfg[6] if len(cfg) > 6 else "own"))
     elif cfg[0] == "pair":
         n = pair_config(cfg[1], cfg[2], cfg[3], cfg[4], cfg[5], p)
         if cfg[2] == (1, 2) and cfg[1] == "Incomer":
             p.sample(dict(config=cfg, executions=n, last_execution_answers=LAST.get("answers")))
     else:
-        _, kind, nbytes, bs, once, stalls = cfg
-        n = rx_config(kind, nbytes, bs, once, stalls, p)
+        _, kind, nbytes, bs, once, stalls = cfg[:6]
+        n = rx_config(kind, nbytes, bs, once, stalls, p, inject=(cfg[6] if len(cfg) > 6 else "own"))
     p.notes["%s executions" % cfg[0]] += n
     p.notes["configs"] += 1
     if n > 1 and cfg[0] != "pair" and cfg[1] in ("Client", "IncomerTls") and cfg[2] in ((2, 1), 3) and (len(cfg) < 5 or (cfg[4] != "bytearray" and len(cfg) == 5)):
@@ -587,9 +620,9 @@ def replay(path):
         pair_config(c[1], tuple(c[2]), tuple(c[3]), c[4], c[5], p, replay=r["choices"])
     elif c[0] == "tx":
         tx_config(c[1], tuple(c[2]), c[3], p, replay=r["choices"], form=(c[4] if len(c) > 4 else "bytes"),
-                  bs=(c[5] if len(c) > 5 else 8096))
+                  bs=(c[5] if len(c) > 5 else 8096), inject=(c[6] if len(c) > 6 else "own"))
     else:
-        rx_config(c[1], c[2], c[3], c[4], c[5], p, replay=r["choices"])
+        rx_config(c[1], c[2], c[3], c[4], c[5], p, replay=r["choices"], inject=(c[6] if len(c) > 6 else "own"))
     return finish_replay("C24", path, p)
 
 
@@ -613,6 +646,8 @@ def run():
         "would-block on recv while bytes are queued in the double models bytes still in flight",
         "the serial Driver sees its device only through server.send()/receive(); DeviceNb is driven through a fake os "
         "module with .fd set by hand because DeviceNb.open() needs a tty",
+        "containers handed to the Client / ClientTls constructor (txes=, rxbs=) are used as the client's queue / buffer "
+        "whether or not they are empty at that moment",
         "data handed to tx() stays the caller's: a bytearray passed in is not modified by servicing, and an object queued "
         "twice counts as two messages with the content it had when queued",
         "after the stall budget is used up every further send makes progress, so a queue that is not drained within "
